@@ -171,6 +171,11 @@ func c10Files(r *rand.Rand, small bool) (book, log string) {
 }
 
 func runC10(c *core.Ctx) {
+	// in the background: a writer that is silent for half a minute has not reached the end of the file
+	if !c.InChild() {
+		waitPaused := pausedPipes(c, map[string]string{"reg": "log", "csv database-resolved": "book", "print": "log"})
+		defer waitPaused()
+	}
 	// plus command shapes drawn from the catalogue (flag combinations nobody listed by hand); stats opens
 	// its files by name and is exercised in the real-process part
 	{
@@ -211,6 +216,12 @@ func runC10(c *core.Ctx) {
 			}
 			if len(text) > 400 {
 				text = text[:strings.LastIndex(text[:400], "\n")+1]
+			}
+			if i%5 == 3 {
+				// a note line above the first heading (left by an export tool, or what remains when the first heading was
+				// commented out): it belongs to no record, and everything below it is still part of the file
+				text = []string{"  # exported from the kitchen spreadsheet\n", "\t#\n", "- # x: 1\n", "# a comment\n\n  # then a note\n"}[r.Intn(4)] + text
+				c.Count("l3_files_with_a_note_above_the_first_heading", 1)
 			}
 			if i%3 == 2 {
 				// lines a YAML reader gives a meaning to (document markers, directives): here they are ordinary lines,
@@ -422,6 +433,18 @@ func runC10(c *core.Ctx) {
 		for ci, cmd := range c10Cmds {
 			res := srv.Fault(run.FaultJob{Args: append([]string{"--no-color", "-d", "food.yaml", "-l", "log.yaml", "--today", "2021/02/01"}, cmd.args...), SinkLimit: -1}, nil)
 			refs[[2]int{i, ci}] = res
+			if cmd.lintFile == "" {
+				// the same command started by a caller whose own context is already cancelled: nothing in the program
+				// observes that context, so the files are read to their ends and the report is the whole report
+				args := append([]string{"--no-color", "-d", "food.yaml", "-l", "log.yaml", "--today", "2021/02/01"}, cmd.args...)
+				plain, cancelled := srv.App1(args, nil), srv.AppCancelled(args)
+				c.Eval(2)
+				c.Count("l2_runs_under_a_cancelled_context", 1)
+				if cancelled.Panic != "" || cancelled.Out != plain.Out || cancelled.Exit != plain.Exit {
+					c.Violation(strings.Join(cmd.args[:min(2, len(cmd.args))], " ")+"|differs-under-a-cancelled-context", fmt.Sprintf("%s through RunContext with a cancelled context: exit %d, %d bytes; through Run: exit %d, %d bytes", joinArgs(cmd.args), cancelled.Exit, len(cancelled.Out), plain.Exit, len(plain.Out)),
+						caseDoc{Files: map[string]string{"food.yaml": wd.book, "log.yaml": wd.log}, Args: args, Expected: resDoc(plain), Observed: resDoc(cancelled)})
+				}
+			}
 			if res.Exit != 0 || res.Died != "" || res.Panic != "" {
 				c.HarnessError(fmt.Sprintf("fault-free run of %v failed: exit %d err %q %s %s\nbook:\n%s\nlog:\n%s", cmd.args, res.Exit, res.Err, res.Panic, res.Died, wd.book, wd.log))
 				return
